@@ -58,7 +58,7 @@ def worker(k, dirs, tier):
                 rc, o = sh(f"git -C {wt} apply --3way {patch}")
             if rc != 0:
                 rec["error"] = "patch does not apply to HEAD: " + o.strip()[-200:]
-                sh(f"git -C {wt} checkout -- . && git -C {wt} reset -q --hard")
+                sh(f"git -C {wt} reset -q --hard; git -C {wt} clean -fdq")
                 out.append(rec)
                 continue
             if FULL:
